@@ -379,7 +379,11 @@ class Gen:
             if x < 0.45:
                 return ('char', self.char())
             if x < 0.65:
-                return ('str', [self.char() for _ in range(r.randint(1, 3))])
+                # an empty literal "" (matches the empty string) now and then
+                k = 0 if r.random() < 0.04 else r.randint(1, 3)
+                if k == 0:
+                    self.bump('empty_str')
+                return ('str', [self.char() for _ in range(k)])
             return self.cls(1) if r.random() < 0.3 else ('set', self.cls(2)[1]) if False else self.set_()
         x = r.random()
         if x < 0.38:
